@@ -41,8 +41,11 @@ MANIFEST = dict(
          "on the protocol objects + blocking calls`, maximal progress (time passes only when no thread can run), "
          "atomic watchdog scan; finer interleavings (every libc call a scheduling point, non-atomic scan) are "
          "exercised against the monitors only; the transport is the stub module below the real rcmd.c: connect-time "
-         "messages are the stub's imitation of xrcmd.c, `command timeout` is dsh.c's own; -k fail-fast, a teardown "
-         "that blocks forever (exec child ignoring SIGTERM), DNS and real signal delivery are outside the model")
+         "messages are the stub's imitation of xrcmd.c, `command timeout` is dsh.c's own; the teardown is a phase of "
+         "the model (rcmd_destroy returns when the scripted command is gone: exited by itself, or killed by the "
+         "forwarded SIGTERM unless it ignores it; the slot is released only then); a command that never goes makes "
+         "dsh() wait for ever — theorem immortal_never_returns, finding F07-TEARDOWN-WAIT, replayed on the real "
+         "`pdsh -R exec -u 1`; -k fail-fast, DNS and real signal delivery are outside the model")
 
 
 def gen_random(rng, nmax):
@@ -99,7 +102,10 @@ def run(ctx):
            "rule": "one evaluation = one complete run of the unmodified dsh() under the controlled scheduler with "
                    "virtual clock (maximal progress) and one fault vector = one behaviour per target from the alphabet "
                    "{ok, ok2, silent, refuse, refuse-late, hang-connect, hang-after, hang-silent, exit3, killed, "
-                   "close-out-early, close-err-early, read-error, conn-at/over/far, cmd-at/over/far (connect delay resp. "
+                   "close-out-early, close-err-early, read-error, chatty, chatty-odd, chatty-ends, outlives (closes its "
+                   "streams, lives 5 s more), stubborn (ignores SIGTERM, lives 6 s), lingers (dies 3 s after SIGTERM), "
+                   "immortal (never exits, ignores SIGTERM), outlives-forever (closes its streams, never exits), "
+                   "conn-at/over/far, cmd-at/over/far (connect delay resp. "
                    "stream end exactly at / just over / beyond timeout+WDOG_POLL)} or free-form, x timeout setting "
                    "(connect_timeout 0..5, command_timeout 0..4, -s on/off) x fanout 1..N+1 x schedule (uniform / PCT "
                    "/ starve-D / eager-D, some with spurious wake-ups); watchdog phase varies with the durations of the "
@@ -160,8 +166,9 @@ def run(ctx):
                      "that lands elsewhere is lost (the no-op handler runs) and is repeated at the next watchdog poll",
                      "POSIX mutex / condition variable semantics as in C03/C04; pthread_create succeeds",
                      "the transport is scripted: connect result after d seconds or never, per-stream items at fixed "
-                     "delays after the connect; rcmd_destroy returns promptly (a teardown that blocks forever is a "
-                     "named runtime behaviour outside the model); no -k",
+                     "delays after the connect, the command's own life time, what SIGTERM does to it (dies after a "
+                     "grace period / ignores it); rcmd_destroy returns when the command is gone (exec / ssh transports: "
+                     "waitpid); no -k",
                      "constructs of the checked tree, detected by behaviour (wait-for-room, worker tests the command "
                      "timeout itself, dsh() stops the watchdog before returning): %s; the theorems hold for every "
                      "combination" % (variant,)],
@@ -226,8 +233,7 @@ def explore(ctx, exe_san, exe, variant, cov, dist):
                    for f in ctx.findings.get("findings", []))
 
     def consume(results):
-        fan = [r for r in results if r["case"]["yield"] == "fan" and r["crash"] is None and not r["bug"] and
-               not r["case"].get("nomodel")]
+        fan = [r for r in results if r["case"]["yield"] == "fan" and r["crash"] is None and not r["bug"]]
         batches = [T.project(r, *variant) for r in fan]
         verdicts = T.accept_all(ctx, batches) if batches else []
         for r, b, bad in zip(fan, batches, verdicts):
